@@ -219,7 +219,7 @@ def walk_sig(v, rec):
 
 
 def judge_walk(out, recs, wd, ucls):
-    shards = kit.write_shards(recs, wd / "trace", "c04w", min(8000, max(500, -(-len(recs) // 4))))
+    shards = kit.write_shards(recs, wd / "trace", "c04w", min(14000, max(500, -(-len(recs) // 4))))
     verdicts, st, tr = kit.judge_shards("C04_WJudge", "C04_WJudge", shards)
     out.states += st
     out.transitions += tr
